@@ -907,9 +907,9 @@ fn run_observer(chk: &xs::Check, tier: xs::Tier, pid: &'static str, report: PRep
                 }
             }
             // second-step probing: on the first channel with the 2 ms timeout in the quick tier, on
-            // every channel and timeout in the thorough tier (first channel: follow-ups
+            // channels 0, 9, 15 with every timeout in the thorough tier (first channel: follow-ups
             // over all 128 values)
-            sys.deep_probes = (c == channels[0] && t_us == 2000) || tier.thorough();
+            sys.deep_probes = (c == channels[0] && t_us == 2000) || (tier.thorough() && matches!(c, 0 | 9 | 15));
             if tier.thorough() && c == channels[0] {
                 sys.followup_values = (0..128).collect();
             } else if !tier.thorough() {
